@@ -24,6 +24,9 @@ mod p11;
 mod p12;
 mod p13;
 mod p14;
+mod p15;
+mod p16;
+mod pkt;
 mod refval;
 
 use fw::*;
@@ -43,6 +46,8 @@ fn make(id: &str, tier: Tier) -> Option<Box<dyn Property>> {
         "C08" => Box::new(p08::P08::new(tier)),
         "C11" => Box::new(p11::P11::new(tier)),
         "C12" => Box::new(p12::P12::new(tier)),
+        "C15" => Box::new(p15::P15::new(tier)),
+        "C16" => Box::new(p16::P16::new(tier)),
         "C09" => Box::new(p09::P09::new(tier)),
         _ => return None,
     })
